@@ -1,8 +1,9 @@
 /-
   C19 — Configuration resolves with documented precedence and works from the environment.
 
-  Every theorem is about `Extracted.Config.*`: the lookup chain read off the checked shape of
-  `ConfigService.__getattribute__`, the module settings table of deep/config/__init__.py, the translated
+  Every theorem is about `Extracted.Config.*`: `getAttribute` — `ConfigService.__getattribute__` translated statement
+  by statement (try/except AttributeError, custom-dict test and read, module attribute, DEEP_<name>, callable test
+  and call) — applied to the object `__init__` builds (`lookup`), the module settings table of deep/config/__init__.py, the translated
   `IN_APP_INCLUDE` / `IN_APP_EXCLUDE` functions, the translated `is_app_frame` and `parse_short_name`, the APP_ROOT
   amendment of `deep.start`, and whether `RepeatedTimer` coerces its interval — all regenerated from /repo on every
   run (harness/extract/config.py) — composed by `Config.World` (validated by the correspondence check).
@@ -20,6 +21,60 @@ theorem isNone_iff (v : CVal) : v.isNone = true ↔ v = CVal.none := by
 
 def customVal (custom : List (String × CVal)) (k : String) : CVal := (custom.lookup k).getD CVal.none
 
+/-- what the translated `__getattribute__` computes from the three things it reads: the object's own attribute
+    `o`, the entry `x` of the code dict, and the module/environment -/
+def gaCore (o x : Option CVal) (env : Env) (px k : String) : CVal :=
+  match o with
+  | some a => a
+  | none =>
+    let attr := x.getD CVal.none
+    if attr.isNone then
+      if !(moduleValue env px k).isSome then
+        (if (getenv env ("DEEP_" ++ k)).isNone then CVal.none else getenv env ("DEEP_" ++ k))
+      else
+        (if ((moduleValue env px k).getD CVal.none).isCallable then ((moduleValue env px k).getD CVal.none).call
+         else (moduleValue env px k).getD CVal.none)
+    else if attr.isCallable then attr.call else attr
+
+theorem lookup_core (custom : List (String × CVal)) (env : Env) (px k : String) :
+    lookup custom env px k = gaCore (ownAttr k) (custom.lookup k) env px k := by
+  cases ho : ownAttr k with
+  | some a => unfold lookup getAttribute gaCore; simp only [ho]
+  | none =>
+    cases hc : custom.lookup k with
+    | none =>
+      unfold lookup getAttribute gaCore
+      simp only [ho, dictHas, dictGet, hc, Option.isSome_some, Option.isSome_none, Bool.true_and,
+        Bool.false_eq_true, if_false, Option.getD_none]
+    | some v =>
+      unfold lookup getAttribute gaCore
+      simp only [ho, dictHas, dictGet, hc, Option.isSome_some, Bool.true_and, if_true, Option.getD_some]
+
+theorem env_arm (env : Env) (n : String) :
+    (if (getenv env n).isNone then CVal.none else getenv env n) =
+      (match env.lookup n with
+        | none => CVal.none
+        | some s => CVal.str s) := by
+  unfold getenv
+  cases env.lookup n <;> rfl
+
+theorem call_arm (v : CVal) : (if v.isCallable then v.call else v) = callIt v := by
+  cases v <;> rfl
+
+theorem module_arm (env : Env) (px k : String) :
+    (if !(moduleValue env px k).isSome then
+        (if (getenv env ("DEEP_" ++ k)).isNone then CVal.none else getenv env ("DEEP_" ++ k))
+      else
+        (if ((moduleValue env px k).getD CVal.none).isCallable then ((moduleValue env px k).getD CVal.none).call
+         else (moduleValue env px k).getD CVal.none)) =
+      (match moduleValue env px k with
+        | none => (match env.lookup ("DEEP_" ++ k) with
+            | none => CVal.none
+            | some s => CVal.str s)
+        | some v => callIt v) := by
+  rw [env_arm, call_arm]
+  cases moduleValue env px k <;> rfl
+
 theorem lookup_foreign (custom : List (String × CVal)) (env : Env) (px k : String)
     (hk : ownNames.contains k = false) :
     lookup custom env px k =
@@ -30,9 +85,11 @@ theorem lookup_foreign (custom : List (String × CVal)) (env : Env) (px k : Stri
               | some s => CVal.str s)
           | some v => callIt v)
       else callIt (customVal custom k) := by
-  unfold lookup customVal
-  rw [hk]
-  cases custom.lookup k <;> rfl
+  have hown : ownAttr k = none := by unfold ownAttr; rw [hk]; rfl
+  rw [lookup_core, hown]
+  unfold customVal gaCore
+  simp only [call_arm]
+  rw [← call_arm ((moduleValue env px k).getD CVal.none), module_arm]
 
 /-- **precedence** — for every name the object does not have of its own (`ownNames`: its methods, properties and
     instance attributes and everything every Python object has — the `__…__` names of `object`; the module's own
@@ -63,12 +120,30 @@ theorem c19_precedence (custom : List (String × CVal)) (env : Env) (px k : Stri
       · intro s hs; simp [hm, hs]
       · intro hs; simp [hm, hs]
 
+/-! ### the translated `__getattribute__` itself -/
+
+/-- **an attribute the object has of its own wins** — whatever the code dict (including a `self.__custom` that is
+    `None`), the environment and the module say, and even when the code dict has an entry of that name
+    (`ConfigService({"plugins": 1}).plugins` is the plugin list): the `try` arm returns before anything else is
+    read. -/
+theorem c19_own_attribute_first (custom : Option (List (String × CVal))) (env : Env) (px k : String) (v : CVal)
+    (h : ownAttr k = some v) : getAttribute custom env px k = v := by
+  unfold getAttribute
+  simp only [h]
+
+/-- **the `self.__custom is not None` guard** — an object whose custom dict is `None` resolves every name exactly
+    as one with an empty dict (no exception from `name in None`): module attribute, else `DEEP_<name>`, else `None`. -/
+theorem c19_custom_none_as_empty (env : Env) (px k : String) :
+    getAttribute none env px k = getAttribute (some []) env px k := by
+  unfold getAttribute
+  cases ownAttr k <;> rfl
+
 /-- a value given in code wins whatever the environment (and the interpreter prefix) is -/
 theorem c19_code_beats_environment (custom : List (String × CVal)) (env env' : Env) (px px' k : String) (v : CVal)
     (hv : custom.lookup k = some v) (hn : v.isNone = false) :
     lookup custom env px k = lookup custom env' px' k := by
   by_cases hk : ownNames.contains k = true
-  · unfold lookup; rw [hk]; rfl
+  · rw [lookup_core, lookup_core]; unfold ownAttr; rw [hk]; rfl
   · have hk' : ownNames.contains k = false := by simpa using hk
     rw [(c19_precedence custom env px k hk').1 v hv hn, (c19_precedence custom env' px' k hk').1 v hv hn]
 
@@ -94,7 +169,7 @@ theorem c19_module_functions_called (custom : List (String × CVal)) (env : Env)
 
 theorem lookup_congr {c c' : List (String × CVal)} {k : String} (h : c.lookup k = c'.lookup k) (env : Env)
     (px : String) : lookup c env px k = lookup c' env px k := by
-  unfold lookup; rw [h]
+  rw [lookup_core, lookup_core, h]
 
 theorem any_of_lookup_none {c : List (String × CVal)} {k : String} (h : c.lookup k = none) :
     c.any (fun e => e.1 == k) = false := by
@@ -459,6 +534,14 @@ theorem c19_app_frame_from_env (custom : List (String × CVal)) (env : Env) (px 
   rfl
 
 /-! ### non-vacuity -/
+
+/-- the translated `__getattribute__`: own attribute before the code dict; a `None` custom dict; a code `None` falls
+    through to the module default, an unknown name to `DEEP_<name>`, a callable is called, nothing found = `None` -/
+example : getAttribute (some [("plugins", CVal.int 1)]) [] "/px" "plugins" = CVal.other "own attribute plugins" ∧
+    getAttribute none [("DEEP_X", "e")] "/px" "X" = CVal.str "e" ∧
+    getAttribute (some [("POLL_TIMER", CVal.none)]) [] "/px" "POLL_TIMER" = CVal.int 10 ∧
+    getAttribute (some [("X", CVal.callable (CVal.int 3))]) [("DEEP_X", "e")] "/px" "X" = CVal.int 3 ∧
+    getAttribute (some []) [] "/px" "X" = CVal.none := ⟨by rfl, by rfl, by rfl, by rfl, by rfl⟩
 
 example : isAppFrame ["/app/src", "/opt/shared"] ["/app/src/vendor", "/px"] "/app" "/app/src/vendor/x.py"
       = (false, some "/app/src/vendor") ∧
